@@ -633,7 +633,8 @@ func callSSA(i *interpreter, caller *frame, callpos token.Pos, fn *ssa.Function,
 	if fn.Pkg != nil && !i.initDone[fn.Pkg] && i.ex != nil {
 		// calling into a package whose initialiser was skipped: its globals are zero
 		if !i.initAllowed(fn.Pkg) {
-			if deniedUninit[fn.Pkg.Pkg.Path()] {
+			// (a harness living in such a package builds the state it needs by hand)
+			if deniedUninit[fn.Pkg.Pkg.Path()] && (i.sess == nil || fn.Pkg != i.sess.Main) {
 				panic(pathEnd{status: stUnsupported, detail: "call into uninitialised package: " + fn.String()})
 			}
 		}
